@@ -27,11 +27,11 @@ META = dict(
          'datetime cycling and are outside; Cylc 7 back-compat branch outside; '
          'after fork of the finite inputs the real code runs untraced.',
     functions=['TaskPool.compute_runahead', 'TaskPool.release_runahead_tasks',
-               'TaskPool.set_stop_point', 'TaskPool.remove',
+               'TaskPool.set_stop_point', 'TaskPool.remove', 'TaskPool.set_max_future_offset', 'TaskPool.add_to_pool',
                'TaskPool.spawn_next_parentless', 'TaskPool.get_tasks_by_point',
                'IntegerSequence.get_first_point / get_next_point'],
-    bounds=['pool: any subset of f@{2,4,8,10,12}, c@{3,7}', 'limit P0..P3',
-            'stop point none or 3..12', 'max future offset none, P1, P2',
+    bounds=['pool: any subset of f@{2,4,8,12}, c@7, e@{4,8} (e carries the future offset P1)', 'limit P0..P3',
+            'stop point none or 3..12', 'max future offset none / P1 (through the real set_max_future_offset as e-tasks enter and leave)',
             'one follow-up change out of 6 kinds'],
     stubs=['pri_dao (no history)', 'data_store_mgr', 'workflow_db_mgr'],
     assumptions=[],
@@ -43,8 +43,8 @@ META = dict(
 CFG = fx.cfg('seq')
 FCP = 12
 UNION = [2, 3, 4, 5, 7, 8, 10, 11, 12]     # members of any recurrence, 2..12
-CAND = [('f', 2), ('f', 4), ('f', 8), ('f', 10), ('f', 12), ('c', 3),
-        ('c', 7)]
+CAND = [('f', 2), ('f', 4), ('f', 8), ('f', 12), ('c', 7), ('e', 4),
+        ('e', 8)]     # e carries a future trigger a[+P1] (offset P1)
 
 
 def spec(points, n, stop, off):
@@ -64,17 +64,20 @@ def spec(points, n, stop, off):
 def _mkpool(bits, n, stop, off):
     pool = fx.pool(CFG)
     pool.config.runahead_limit = IntegerInterval.from_integer(n)
+    if stop is not None:
+        pool.stop_point = IntegerPoint(str(stop))     # known at start-up
     tasks = []
     for (nm, q), b in zip(CAND, bits):
         if b:
             t = fx.itask(CFG, nm, q)
             pool.add_to_pool(t)
             tasks.append(t)
-    if stop is not None:
-        pool.stop_point = IntegerPoint(str(stop))
-    if off:
-        pool.max_future_offset = IntegerInterval.from_integer(off)
     return pool, tasks
+
+
+def _off(pool):
+    """Largest future-trigger offset among pooled tasks (only e has one)."""
+    return 1 if any(t.tdef.name == 'e' for t in pool.get_tasks()) else 0
 
 
 def _cold(bits, n, stop, off):
@@ -83,9 +86,10 @@ def _cold(bits, n, stop, off):
         return True
     try:
         pts = [int(t.point) for t in tasks]
+        off = _off(pool)
         want = spec(pts, n, stop, off)
-        changed = pool.compute_runahead()
-        if not changed or int(pool.runahead_limit_point) != want:
+        pool.compute_runahead()
+        if int(pool.runahead_limit_point) != want:
             return False
         if stop is None or min(pts) <= stop:
             if int(pool.runahead_limit_point) < min(pts):
@@ -107,11 +111,12 @@ def _cold(bits, n, stop, off):
 def cold(b0: bool, b1: bool, b2: bool, b3: bool, b4: bool, b5: bool, b6: bool,
          n: int, stop: int, off: int) -> bool:
     """
-    pre: sl(n=n, off=off)
-    pre: 0 <= n <= 3 and 2 <= stop <= 12 and 0 <= off <= 2
+    pre: sl(n=n, b5=b5, b6=b6)
+    pre: 0 <= n <= 3 and 2 <= stop <= 12 and off == 0
     post: _
     """
-    n, off = fork_int(n, 0, 3), fork_int(off, 0, 2)
+    n = fork_int(n, 0, 3)
+    off = 0
     stop = fork_int(stop, 2, 12)
     bits = [fork_bool(b) for b in (b0, b1, b2, b3, b4, b5, b6)]
     with concrete():
@@ -143,10 +148,11 @@ def _step(bits, n, stop, off, op, arg):
             pool.set_stop_point(IntegerPoint(str(3 + arg)))    # 3..12
             stop = 3 + arg
         elif op == 4:
-            pool.max_future_offset = IntegerInterval.from_integer(
-                (arg % 2) + 1)
-            off = (arg % 2) + 1
-            pool.compute_runahead(force=True)   # as set_max_future_offset
+            # the task carrying the future offset leaves the pool
+            es = [t for t in live if t.tdef.name == 'e']
+            if not es:
+                return True
+            pool.remove(es[arg % len(es)])
         pool.compute_runahead()
         before = {id(t): t.state.is_runahead for t in pool.get_tasks()}
         pool.release_runahead_tasks()
@@ -154,7 +160,11 @@ def _step(bits, n, stop, off, op, arg):
         if not cur:
             return True
         pts = [int(t.point) for t in cur]
+        off = _off(pool)
         want = spec(pts, n, stop, off)
+        if not raised and pool.runahead_limit_point is not None and int(
+                pool.runahead_limit_point) > want:
+            return False               # limit above the specification
         for t in cur:
             newly = (not t.state.is_runahead) and before.get(id(t), True)
             if newly and int(t.point) > want:
@@ -181,7 +191,7 @@ def step(b0: bool, b1: bool, b2: bool, b3: bool, b4: bool, b5: bool, b6: bool,
          n: int, stop: int, off: int, op: int, arg: int) -> bool:
     """
     pre: sl(n=n, op=op, arg=arg)
-    pre: 0 <= n <= 3 and 2 <= stop <= 12 and 0 <= off <= 2
+    pre: 0 <= n <= 3 and 2 <= stop <= 12 and off == 0
     pre: 0 <= op <= 4 and 0 <= arg <= 9
     pre: op >= 2 or arg == 0
     pre: op != 2 or arg <= 6
@@ -189,7 +199,7 @@ def step(b0: bool, b1: bool, b2: bool, b3: bool, b4: bool, b5: bool, b6: bool,
     pre: SLICE.get('stops') is None or stop in SLICE['stops']
     post: _
     """
-    n, off = fork_int(n, 0, 3), fork_int(off, 0, 2)
+    n, off = fork_int(n, 0, 3), 0
     stop, op, arg = fork_int(stop, 2, 12), fork_int(op, 0, 4), fork_int(
         arg, 0, 9)
     bits = [fork_bool(b) for b in (b0, b1, b2, b3, b4, b5, b6)]
@@ -202,10 +212,11 @@ def OBLIGATIONS(tier):
     t = 1800 if big else 170
     obs = []
     for n in range(4):
-        for off in range(3):
-            obs.append(Ob(f'cold[n={n},off={off}]', 'cold', timeout=t,
-                          twin=(n == 0 and off == 0),
-                          slice={'n': n, 'off': off}))
+        for b5 in (False, True):
+            for b6 in (False, True):
+                obs.append(Ob(f'cold[n={n},e4={b5},e8={b6}]', 'cold',
+                              timeout=t, twin=(n == 0 and not b5 and not b6),
+                              slice={'n': n, 'b5': b5, 'b6': b6}))
     stops = None if big else [2, 5, 8, 12]
     for n in range(4):
         for op, args in ((0, [0]), (1, [0]), (2, range(7)),
@@ -225,7 +236,7 @@ def VALIDATE():
     assert spec([2], 2, None, 0) == 4 and spec([2, 8], 0, None, 0) == 2
     assert spec([8], 3, None, 0) == 12 and spec([8], 3, 10, 1) == 10
     assert _cold([True, False, False, False, False, False, False], 2, None, 0)
-    assert _cold([False, True, True, False, False, True, True], 1, 7, 1)
+    assert _cold([False, True, True, False, True, True, True], 1, 7, 0)
     assert _step([True, True, True, False, False, True, False], 1, None, 0,
                  0, 0)
     assert _step([False, True, True, False, False, False, False], 1, None, 0,
